@@ -69,7 +69,9 @@ func (cbm *callbackMgr[T]) runCBs(ctx context.Context) {
 	newCfgCBs := make([]*userCallbackHandle[T], 0)
 	lastSerial := uint64(0)
 	lastVersion := (*T)(nil)
+	defer verifPoint("cb.exit")
 	for {
+		verifPoint("cb.top")
 		var ev userCallbackEvent
 		select {
 		case ev = <-cbm.ch:
@@ -81,6 +83,7 @@ func (cbm *callbackMgr[T]) runCBs(ctx context.Context) {
 				return
 			}
 		}
+		verifPoint("cb.got", ev)
 		switch e := ev.(type) {
 		case *watchErrorEvent[T]:
 			if cbm.p.OnWatchedError != nil {
